@@ -179,7 +179,7 @@ def _python_scalar_ann(text: str) -> bool:
 
 def _pyness(world, table, cls, fn: ast.FunctionDef, e: ast.AST, depth: int):
     """'py' (Python scalar), 'array' (NumPy/JAX value) or 'unknown' for an expression inside fn."""
-    if depth > 4:
+    if depth > 14:
         return 'unknown', 'too deep'
     if isinstance(e, ast.Constant):
         return 'py', 'literal'
